@@ -180,9 +180,10 @@ def run(ctx):
         ctx.take(r)
     # (b)
     L = 20
-    jmenu = [("j2", [1, L], 0), ("j3", [L], 0), ("j2zero", [L], 0)]
+    jmenu = [("j2", [1, L], 0), ("j3", [L], 0), ("j2zero", [L], 0), ("j3mask", [L], 0), ("j4mask", [1, L], 0)]
     if ctx.thorough:
-        jmenu = [("j2", [1, 2, L], 1), ("j3", [1, L], 1), ("j2zero", [L], 0), ("j1", [L], 0)]
+        jmenu = [("j2", [1, 2, L], 1), ("j3", [1, L], 1), ("j2zero", [L], 0), ("j1", [L], 0), ("j3mask", [1, L], 1),
+                 ("j4mask", [1, 2, L], 0)]
     ps = ml.e2_plans(ctx, jmenu, MONS, entry="front", conform=True)
     ml.explore(ctx, ps)
     ml.e2_describe(ctx, ps)
@@ -191,6 +192,7 @@ def run(ctx):
         "cum_j - 1, plus a behavioural cross-check through the real labelling kernel (a forced label change is "
         "free exactly at boundary pairs) for total length <= 8; (c) single-series vs one-element joint front end, "
         "same scripted initial labelling, all result fields bitwise; (b) " + ctx.cov["rule"] +
+        " The drivers j3mask / j4mask pass beta x mask themselves as a per-pair cost (3 and 4 series)."
         " Monitor: from the cost table observed at the labelling step of the last round, the returned labelling "
         "minimises and the reported cost equals assignment + within-series switching cost (reference DP).")
     ctx.cov["mask_tuples"] = sum(4 ** n for n in range(1, 7))
